@@ -371,6 +371,15 @@ where
         }
         // children: deviate at every later point
         let base = prefix.len();
+        if x.taken.len() < base {
+            *machinery.lock().unwrap() = Some(format!(
+                "replay divergence: execution ended after {} choice points, before its prefix {:?} was consumed",
+                x.taken.len(),
+                prefix
+            ));
+            stop.store(true, Ordering::Relaxed);
+            return;
+        }
         let mut children: Vec<Vec<u32>> = vec![];
         let mut cost = x.taken[..base].iter().filter(|c| **c != 0).count();
         for i in base..x.taken.len() {
